@@ -16,6 +16,25 @@ PROPS = {
         design_ref="DESIGN.md §7 C01",
         assumptions=[],
     ),
+    "C02": dict(
+        level="exploration",
+        technique="bounded run-time contract checking of DirectedHypergraph against a ghost map (source set, target set) -> (weight, metadata); deductive obligations where contracts exist",
+        text=("Every public mutator/query of DirectedHypergraph is executed on all histories of a stated small scope and on seeded random "
+              "histories, and compared after every prefix with an independent abstract model; deductive obligations (hv/contracts) cover "
+              "the functions listed in the evidence. Claimed as exploration."),
+        design_ref="DESIGN.md §7 C02", assumptions=[]),
+    "C03": dict(
+        level="exploration",
+        technique="bounded run-time contract checking of TemporalHypergraph against a ghost map (time, node set) -> (weight, metadata), incl. windows, snapshots, aggregate",
+        text=("All histories of a stated small scope plus seeded random histories; after every prefix all queries, 20 time windows, the per-time "
+              "snapshots and aggregate(w) are compared with an independent abstract model, and derivations are shown not to change the object."),
+        design_ref="DESIGN.md §7 C03", assumptions=[]),
+    "C04": dict(
+        level="exploration",
+        technique="bounded run-time contract checking of MultiplexHypergraph against a ghost map (node set, layer) -> (weight, metadata), incl. aggregation and overlap",
+        text=("All histories of a stated small scope plus seeded random histories; after every prefix all queries, the aggregated hypergraph and "
+              "the overlap are compared with an independent abstract model, and both derivations are shown to leave the multiplex unchanged."),
+        design_ref="DESIGN.md §7 C04", assumptions=[]),
 }
 
 NOT_APPLICABLE = {
